@@ -64,6 +64,17 @@ def rule_make_up_bounds(check, rule):
                                 'more positionals than parameters is generated')
             elif extra_p and made_args and not extra_loops:
                 problems.append('the made-up surplus names (extra) are never appended to the list the positional prefixes are taken from')
+        # the star parameters can be named by keyword too (the keyword lands in **kwargs): their names join the list when present
+        if names is not None:
+            for atom, pol in p.lits:
+                if atom[0] == 'truthy' and pol and atom[1][0] == 'S' and atom[1][2] in (K(2), K(4)) and atom[1][1][0] == 'C' \
+                        and str(atom[1][1][1]).endswith('sort_params'):
+                    star = atom[1]
+                    added = [e for e in p.effects if e.kind == 'mut' and e.target == names and e.op in ('append', 'extend', 'insert')
+                             and any(a_ == ('A', star, 'name') for a_ in e.args)]
+                    if not added:
+                        problems.append('the name of the %s parameter is not added to the names the keyword subsets are drawn from'
+                                        % ('*args' if atom[1][2] == K(2) else '**kwargs'))
         # keyword subsets: combinations(names, i) for i in range(len(names) + 1)
         rng = None
         if gk is not None:
@@ -110,6 +121,23 @@ def rule_make_up_bounds(check, rule):
                                 witness="make_up_callsigs(s('a, *args, **kwargs')) must contain the call passing a, args and kwargs all by keyword")
         else:
             check.holds(rule, st, 'prefixes 0..len(names), keyword subsets of every size 0..len(final names), full product', key=key, guards=gtext)
+    # over all paths: each star parameter's name is added on some path (a test that never lets it through shows no literal at all)
+    star_added = {2: False, 4: False}
+    for p in paths:
+        for e in p.effects:
+            if e.kind == 'mut' and e.op in ('append', 'extend', 'insert'):
+                for a_ in e.args:
+                    if a_[0] == 'A' and a_[2] == 'name' and a_[1][0] == 'S' and a_[1][2] in (K(2), K(4)) and a_[1][1][0] == 'C' \
+                            and str(a_[1][1][1]).endswith('sort_params'):
+                        star_added[a_[1][2][1]] = True
+    for idx, nm in ((2, '*args'), (4, '**kwargs')):
+        key = 'make_up_callsigs|star-name|%d' % idx
+        if star_added[idx]:
+            check.holds(rule, site_of(fi, fi.node), 'the name of the %s parameter joins the names the keyword subsets are drawn from' % nm, key=key)
+        else:
+            check.violation(rule, site_of(fi, fi.node), 'the name of the %s parameter never joins the names the keyword subsets are drawn from: the calls '
+                            'passing it by keyword (which land in **kwargs) are not generated' % nm, key=key,
+                            witness="make_up_callsigs(s('a, *args, **kwargs')) must contain a call with args=... by keyword")
     check.floor(rule, 'returning paths of make_up_callsigs', n, 2)
 
 
@@ -589,3 +617,81 @@ def rule_read_sig_insertion_index(check, rule):
                             witness="s('a, *args, b=1, c', use_modifiers_kwoargs=True) generates def func(a, b=1, c, *args): SyntaxError")
     if not n_sites:
         check.holds(rule, site_of(fi, loop), 'the insertion index is not obtained by counting (not judged)', key=key, nontrivial=False)
+
+
+def rule_read_sig_flag_gating(check, rule):
+    """C20.R11: read_sig collects the names to hand to `modifiers.posoargs` / `modifiers.kwoargs` (4th and 5th element of its result) and the
+    annotations to hand to `modifiers.annotate` (3rd) only under the option that asks for that spelling: every addition to the
+    positional-only name list happens under `use_modifiers_posoargs`, to the keyword-only name list under `use_modifiers_kwoargs`, to
+    the annotation map under `use_modifiers_annotate` -- otherwise the generated code applies a modifier nobody asked for (or the
+    native and the modifier spelling of the same parameter at once)."""
+    repo = check.repo
+    fi = repo.func(SUP + ':read_sig')
+    check.analysed(fi)
+    it = Interp(repo, Policy())
+    paths = it.run(fi)
+    check.absorb(it)
+    rets = [p for p in paths if p.status == 'return' and p.value[0] == 'T' and len(p.value[1]) >= 6]
+    if not rets:
+        check.inconclusive(rule, site_of(fi, fi.node), 'read_sig: result tuple not recognised', key='read_sig|gating')
+        return
+    v = rets[0].value[1]
+    roles = {v[3]: ('use_modifiers_posoargs', 'positional-only names'), v[4]: ('use_modifiers_kwoargs', 'keyword-only names'),
+             v[2]: ('use_modifiers_annotate', 'annotations')}
+    allp = fi.params()[0] + fi.params()[2]
+    n = 0
+    seen = set()
+    for p in rets[:1]:
+        for e, g in walk_effects(p.effects):
+            if e.kind != 'loop':
+                continue
+            for sp in e.sub:
+                lits = dict(sp.lits)
+                for x in sp.effects:
+                    if x.kind == 'mut' and x.target in roles and x.op in ('append', 'extend', 'setitem', 'insert', 'update'):
+                        flag, what = roles[x.target]
+                        if flag not in allp:
+                            continue
+                        val = lits.get(('truthy', ('P', flag)))
+                        key = 'read_sig|gating|%s|%s' % (flag, val)
+                        if key in seen:
+                            continue
+                        seen.add(key)
+                        n += 1
+                        if val is True:
+                            check.holds(rule, site_of(fi, x.node), 'additions to the %s happen under %s' % (what, flag), key=key)
+                        else:
+                            others = [a[1][1] for a, pol in sp.lits if a[0] == 'truthy' and a[1][0] == 'P' and a[1][1].startswith('use_modifiers')]
+                            check.violation(rule, site_of(fi, x.node), 'the %s handed to the modifier are added to %s %s (the path tests %s)'
+                                            % (what, 'although %s is off' % flag if val is False else 'without testing %s' % flag, '', ', '.join(sorted(set(others))) or 'no option'),
+                                            key=key, witness="s('a, /, b', use_modifiers_kwoargs=True) must not apply modifiers.posoargs")
+    check.floor(rule, 'gated additions in read_sig', n, 2)
+
+
+def rule_options_forwarded(check, rule):
+    """C20.R10: the spelling options reach read_sig: f() hands its `**kwargs` to read_sig, s() and func_from_sig() hand theirs to f()."""
+    repo = check.repo
+    n = 0
+    for caller, callee in (('f', 'read_sig'), ('s', 'f'), ('func_from_sig', 'f')):
+        fi = repo.func('%s:%s' % (SUP, caller), required=False)
+        if fi is None:
+            check.inconclusive(rule, '-', 'anchor %s vanished' % caller, key='options|%s' % caller)
+            continue
+        check.analysed(fi)
+        kwarg = fi.params()[3]
+        key = 'options|%s->%s' % (caller, callee)
+        if kwarg is None:
+            check.holds(rule, site_of(fi, fi.node), '%s takes no **options' % caller, key=key, nontrivial=False)
+            continue
+        calls = [c for c in ast.walk(fi.node) if isinstance(c, ast.Call) and norm(c.func).split('.')[-1] == callee]
+        n += 1
+        if not calls:
+            check.violation(rule, site_of(fi, fi.node), '%s does not call %s' % (caller, callee), key=key)
+            continue
+        c = calls[0]
+        if any(k.arg is None and isinstance(k.value, ast.Name) and k.value.id == kwarg for k in c.keywords):
+            check.holds(rule, site_of(fi, c), '%s hands its **%s on to %s' % (caller, kwarg, callee), key=key)
+        else:
+            check.violation(rule, site_of(fi, c), '%s does not hand its **%s on to %s: the spelling options are silently ignored' % (caller, kwarg, callee),
+                            key=key, witness="s('a, *, b', use_modifiers_kwoargs=True) must be built with modifiers.kwoargs")
+    check.floor(rule, 'option-forwarding helpers', n, 2)
